@@ -324,3 +324,22 @@ def integer_kernel_basis(cx):
     # every equation (column of rows^T) has been eliminated when the kernel rows are read off: the column loop runs over ALL equations
     cx.ensures(lambda st, r: z3.And(z3.BoolVal(st['$pending'].t is None), st['$i0'].t == m.t))
     cx.lemmas.append(('L-unimod: a product of elementary row operations (row_r -= q*row_s, swaps) is unimodular; the kernel rows of a unimodular echelon transformation generate the integer kernel', None))
+
+
+@contract('invariants/exponent_lattice.py', 'ExponentLattice.is_trivially_empty', ['C16', 'C07'])
+def is_trivially_empty(cx):
+    """the shortcut "the lattice is trivial" is taken only for an empty list, or when every base is rational, none is 1, NO base has the numerator -1
+    or 0 (a base -1/q has the relation b**2 = 1/q**2 ... and -1 itself has (-1)**2 = 1: such bases must go through the full computation), and the
+    numerators and denominators different from 1 pass the coprimality test."""
+    bases = cx.seq('bases', DN)
+    NUM = z3.Function('numerator', R, I); DEN = z3.Function('denominator', R, I); ISRAT = z3.Function('is_Rational', R, B)
+    COPRIME = cx.bool('are_coprime_result')
+    cx.param(self=cx.obj('ExponentLattice', bases=bases))
+    cx.attr('is_Rational', lambda ex, st, o: VB(ISRAT(toreal(o))))
+    cx.call('numer', lambda ex, st, r, a, kw: VI(NUM(toreal(a[0])))); cx.call('denom', lambda ex, st, r, a, kw: VI(DEN(toreal(a[0]))))
+    cx.call('are_coprime', lambda ex, st, r, a, kw: COPRIME, trusted='are_coprime contract (contracts/misc.py)')
+    cx.set_hook('binop', lambda ex, st, op, a, b: V('opaque') if (op == 'Add' and 'comp' in (a.kind, b.kind)) else None)
+    j = z3.Int('j'); n = z3.Length(bases.t)
+    ok = z3.ForAll([j], z3.Implies(z3.And(0 <= j, j < n), z3.And(ISRAT(bases.t[j]), bases.t[j] != 1,
+                                                              z3.Or(NUM(bases.t[j]) == 1, NUM(bases.t[j]) > 1, NUM(bases.t[j]) < -1))))
+    cx.ensures(lambda st, r: z3.Implies(r.t, z3.Or(n == 0, z3.And(ok, COPRIME.t))) if r.kind == 'bool' else z3.BoolVal(False))
